@@ -1491,9 +1491,9 @@ fn thread_state(tid: i32) -> Option<(char, i64)> {
         .unwrap_or(-1);
     Some((st, sc))
 }
-fn wait_until_parked(tid: &std::sync::atomic::AtomicI32) -> bool {
+fn wait_until_parked(tid: &std::sync::atomic::AtomicI32, scale: u64) -> bool {
     // the waiter publishes its tid, then calls FUTEX_WAIT; parked = sleeping inside futex(2) (nr 202)
-    for _ in 0..20000 {
+    for _ in 0..20000 * scale {
         let t = tid.load(Ordering::SeqCst);
         if t != 0 {
             if let Some(('S', 202)) = thread_state(t) {
@@ -1513,7 +1513,8 @@ fn errno_of(r: &Result<(), rusl::Error>) -> i64 {
 
 /// FutexSys scenarios: rusl::futex::{futex_wait, futex_wake} against the kernel, reported as
 /// machine-level facts (word, expected value, number parked, result) for the judge.
-fn futex_scenarios(out: &mut impl Write) {
+/// `scale` multiplies every wall-clock allowance (re-confirmation runs on a loaded machine).
+fn futex_scenarios(out: &mut impl Write, scale: u64) {
     use rusl::futex::{futex_wait, futex_wake};
     use rusl::platform::{FutexFlags, TimeSpec};
     use std::sync::atomic::AtomicI32;
@@ -1540,7 +1541,7 @@ fn futex_scenarios(out: &mut impl Write) {
                 // every wait of the scenarios carries a long timeout so that a broken wake cannot hang the driver
                 let mut res;
                 loop {
-                    res = errno_of(&futex_wait(&word, 7, FutexFlags::PRIVATE, Some(TimeSpec::new(60, 0))));
+                    res = errno_of(&futex_wait(&word, 7, FutexFlags::PRIVATE, Some(TimeSpec::new(60 * scale as i64, 0))));
                     if res != -i64::from(EINTR) {
                         break;
                     }
@@ -1551,12 +1552,12 @@ fn futex_scenarios(out: &mut impl Write) {
         }
         let mut all = true;
         for t in tids.iter() {
-            all &= wait_until_parked(t);
+            all &= wait_until_parked(t, scale);
         }
         let r = futex_wake(&word, n).map_or(-1, |x| x as i64);
         // the woken threads need time to come back (up to 15 s on a loaded machine), then a
         // grace period during which nobody else may return
-        for _ in 0..15000 {
+        for _ in 0..15000 * scale {
             if i64::from(returned.load(Ordering::SeqCst)) >= r {
                 break;
             }
@@ -1599,7 +1600,7 @@ fn mode_real(path: &str) {
     let stdout = std::io::stdout();
     let mut out = std::io::BufWriter::with_capacity(1 << 20, stdout.lock());
     if v.get("scenarios").and_then(Value::as_bool).unwrap_or(true) {
-        futex_scenarios(&mut out);
+        futex_scenarios(&mut out, v.get("wait_scale").and_then(Value::as_u64).unwrap_or(1).max(1));
     }
     let lock = Arc::new(if rw { LockObj::R(RwLock::new(Data(0))) } else { LockObj::M(Mutex::default()) });
     let ticket = Arc::new(std::sync::atomic::AtomicU64::new(0));
@@ -1698,7 +1699,8 @@ fn mode_real(path: &str) {
           }
         }));
     }
-    // watchdog: no section completed for 20 s while threads are still inside = hang
+    // watchdog: no section completed for `watchdog_s` (default 20 s) while threads are still inside = hang
+    let idle_limit = (v.get("watchdog_s").and_then(Value::as_f64).unwrap_or(20.0) * 10.0) as u64;
     let mut last = 0;
     let mut idle = 0;
     let mut hang = false;
@@ -1707,7 +1709,7 @@ fn mode_real(path: &str) {
         let p = progress.load(Ordering::Relaxed);
         if p == last {
             idle += 1;
-            if idle > 200 {
+            if idle > idle_limit {
                 hang = true;
                 break;
             }
